@@ -29,7 +29,7 @@ type c08Case struct {
 func runC08(res *result) {
 	scopes := []string{"Events", "events", "myScope", "my_scope", "E"}
 	ops := []string{"Created", "created", "op_1"}
-	prefixes := []string{"", "foo", "foo.bar", "{user}", "foo.{user}", "foo.{ab}.bar.{cd}", "v1-x_y"}
+	prefixes := []string{"", "foo", "foo.bar", "{user}", "foo.{user}", "foo.{ab}.bar.{cd}", "v1-x_y", "v1.{tenant}.{app}"}
 	delims := []string{".", "/", "_", "::"}
 	values := [][]string{{"bill", "ted"}, {"", ""}, {"a.b", "c/d"}, {"é", "日本"}}
 	langs := []string{"go", "java", "dart", "py", "py:asyncio", "py:tornado"}
@@ -157,4 +157,95 @@ func runC08(res *result) {
 			res.Samples = append(res.Samples, map[string]interface{}{"case": c.ID, "topics": r["go"]["0"]})
 		}
 	}
+	if *shard == 0 {
+		runC08Go(res)
+	}
+}
+
+// runC08Go runs the generated Go publisher and subscriber (default delimiter) against recording
+// scope transports: the topic handed to FPublisherTransport.Publish must equal the one handed to
+// FSubscriberTransport.Subscribe and the specified topic, for prefix variables given distinct values
+// in the order the IDL declares them.
+func runC08Go(res *result) {
+	prefixes := []string{"", "foo", "{user}", "foo.{user}", "foo.{ab}.bar.{cd}", "v1.{tenant}.{app}", "{zz}.{mm}.{aa}", "m.{region}.{cluster}.{host}.raw"}
+	var atoms []idl.Atom
+	for _, pf := range prefixes {
+		for _, sc := range []string{"Events", "my_scope"} {
+			atoms = append(atoms, idl.Atom{Name: fmt.Sprintf("go-runtime/scope=%s/prefix=%s", sc, pf), Class: "scope",
+				Prog: idl.MainFile(false, []*idl.Decl{{Struct: &idl.Struct{Kind: "struct", Name: "Payload", Fields: []*idl.Field{{ID: 1, Name: "v", Req: "default", Type: idl.T("i32")}}}}},
+					&idl.Decl{Scope: &idl.Scope{Name: sc, Prefix: pf, Ops: []*idl.Op{{Name: "Created", Type: idl.T("Payload")}, {Name: "Gone", Type: idl.T("Payload")}}}})})
+		}
+	}
+	saveShard, saveN := *shard, *nshards
+	*shard, *nshards = 0, 1
+	units := prepareGenModule(res, atoms, "")
+	*shard, *nshards = saveShard, saveN
+	title := func(s string) string { return strings.ToUpper(s[:1]) + s[1:] }
+	for _, u := range units {
+		r := &idl.Resolver{P: u.atom.Prog}
+		main := u.atom.Prog.Files[0]
+		var sc *idl.Scope
+		for _, d := range main.Decls {
+			if d.Scope != nil {
+				sc = d.Scope
+			}
+		}
+		plan := drvPlan{Structs: r.AllStructRTs()}
+		vars := idl.PrefixVars(sc.Prefix)
+		var args []string
+		want := sc.Prefix
+		for _, v := range vars {
+			val := "val-" + v
+			args = append(args, val)
+			want = strings.Replace(want, "{"+v+"}", val, 1)
+		}
+		if want != "" {
+			want += "."
+		}
+		payloadRT := r.Resolve(main, idl.T("Payload"))
+		for _, op := range sc.Ops {
+			plan.Ops = append(plan.Ops, drvOp{Op: "call", Call: &callSpec{Kind: "pubsub", Scope: sc.Name, Op: op.Name, PrefixArgs: args, PayloadRT: payloadRT,
+				Payload: &idl.V{K: "struct", F: map[string]*idl.V{"1": iv(7)}}, Proto: "binary", Cid: "c"}})
+		}
+		pj, _ := json.Marshal(plan)
+		out, err := runDriver(u, pj)
+		if err != nil {
+			res.fail(finding{Key: "C08/go-runtime/driver-crashed", Atom: u.atom.Name, IDL: u.texts, Msg: err.Error()})
+			continue
+		}
+		var results []drvResult
+		if err := json.Unmarshal(out, &results); err != nil || len(results) != len(plan.Ops) {
+			res.fail(finding{Key: "C08/harness/go-runtime-output", Msg: fmt.Sprint(err)})
+			continue
+		}
+		for i, op := range sc.Ops {
+			res.Evaluations++
+			var cr callResult
+			json.Unmarshal(results[i].Call, &cr)
+			desc := fmt.Sprintf("%s op %s with %v", u.atom.Name, op.Name, args)
+			if results[i].Panic != "" || cr.Err != "" {
+				res.fail(finding{Key: "C08/go-runtime/call-failed", Atom: u.atom.Name, IDL: u.texts, Msg: desc + ": " + results[i].Panic + cr.Err})
+				continue
+			}
+			var pub, sub string
+			for _, t := range cr.Topics {
+				if strings.HasPrefix(t, "publish:") {
+					pub = strings.TrimPrefix(t, "publish:")
+				}
+				if strings.HasPrefix(t, "subscribe:") {
+					sub = strings.TrimPrefix(t, "subscribe:")
+				}
+			}
+			refs := map[string]bool{want + sc.Name + "." + op.Name: true, want + title(sc.Name) + "." + op.Name: true}
+			switch {
+			case pub != sub:
+				res.fail(finding{Key: "C08/publisher-subscriber-disagree/go-runtime", Atom: u.atom.Name, IDL: u.texts, Msg: fmt.Sprintf("%s: the generated Go publisher published on %q, the subscriber subscribed to %q", desc, pub, sub)})
+			case !refs[pub]:
+				res.fail(finding{Key: "C08/topic-not-as-specified/go-runtime", Atom: u.atom.Name, IDL: u.texts, Msg: fmt.Sprintf("%s: topic %q, specification gives %q", desc, pub, want+sc.Name+"."+op.Name)})
+			case cr.HandlerCalls != 1:
+				res.fail(finding{Key: "C08/go-runtime/not-delivered", Atom: u.atom.Name, IDL: u.texts, Msg: fmt.Sprintf("%s: %d deliveries", desc, cr.HandlerCalls)})
+			}
+		}
+	}
+	res.Extra["go_runtime_scopes"] = len(units)
 }
